@@ -19,7 +19,7 @@ import subprocess
 import vlib
 
 NS = 'xmlns="http://www.w3.org/2000/svg" xmlns:xlink="http://www.w3.org/1999/xlink"'
-SITE_IMPORTS = ['Model.HashModel', 'Gen.C06Sites', 'Model.C06Chk']
+SITE_IMPORTS = ['Model.HashModel', 'Gen.C06Sites', 'Gen.C06BinSites', 'Model.C06Chk']
 
 
 # ------------------------------------------------------------------------------------------------
@@ -122,6 +122,128 @@ def gen_doc(rng):
     return '<svg %s width="200" height="200" viewBox="0 0 200 200"><defs>%s</defs>%s</svg>' % (NS, ''.join(defs), ''.join(body))
 
 
+# ------------------------------------------------------------------------------------------------
+# history dimension: DIFFERENT raster images that agree in kind, byte length and leading 256 bytes
+# ------------------------------------------------------------------------------------------------
+def stored_png(w, h, rows):
+    """RGBA8 PNG with an uncompressed (stored) deflate stream: the length does not depend on the pixels."""
+    import struct
+    import zlib
+
+    def chunk(t, d):
+        return struct.pack('>I', len(d)) + t + d + struct.pack('>I', zlib.crc32(t + d) & 0xffffffff)
+    raw = b''.join(b'\x00' + r for r in rows)
+    z = b'\x78\x01'
+    pos = 0
+    while pos < len(raw):
+        blk = raw[pos:pos + 65535]
+        pos += len(blk)
+        z += bytes([1 if pos >= len(raw) else 0]) + struct.pack('<HH', len(blk), len(blk) ^ 0xffff) + blk
+    z += struct.pack('>I', zlib.adler32(raw) & 0xffffffff)
+    return b'\x89PNG\r\n\x1a\n' + chunk(b'IHDR', struct.pack('>IIBBBBB', w, h, 8, 6, 0, 0, 0)) + chunk(b'IDAT', z) + chunk(b'IEND', b'')
+
+
+def image_pair_docs(rng, n):
+    """n pairs (docA, docB): one <image> each, data-URL PNGs of equal size, length and first 256 bytes, different later rows"""
+    import base64
+    out = []
+    for _ in range(n):
+        w, h = rng.choice([(16, 16), (24, 12), (10, 40), (32, 32), (8, 64)])
+        same_rows = (256 // (1 + 4 * w)) + 2
+        base = [bytes([rng.below(256), rng.below(256), rng.below(256), 255]) * w for _ in range(h)]
+        a = list(base)
+        b = list(base)
+        for y in range(same_rows, h):
+            a[y] = bytes([rng.below(256), rng.below(256), rng.below(256), 255]) * w
+            b[y] = bytes([255 - a[y][0], rng.below(256), 255 - a[y][2], 255]) * w
+        pa, pb = stored_png(w, h, a), stored_png(w, h, b)
+        assert len(pa) == len(pb) and pa[:256] == pb[:256] and pa != pb
+        docs = []
+        for png in (pa, pb):
+            href = 'data:image/png;base64,' + base64.b64encode(png).decode()
+            docs.append('<svg %s width="%d" height="%d"><rect width="%d" height="%d" fill="#eee"/>'
+                        '<image x="2" y="2" width="%d" height="%d" xlink:href="%s"/></svg>' % (NS, w + 4, h + 4, w + 4, h + 4, w, h, href))
+        out.append(tuple(docs))
+    return out
+
+
+# ------------------------------------------------------------------------------------------------
+# the shipped binaries in fresh processes (several font sources: the order of faces must follow argv)
+# ------------------------------------------------------------------------------------------------
+CLI_TEXT_DOCS = [
+    '<svg %s width="260" height="60"><text x="4" y="40" font-family="Noto Color Emoji" font-size="28">A\U0001F600Bq 12 \u0416</text></svg>',
+    '<svg %s width="260" height="60"><text x="4" y="40" font-family="Noto Sans Devanagari" font-size="26">\u0915 Latin gjy \u0416\u4f60</text></svg>',
+    '<svg %s width="300" height="80"><text x="4" y="30" font-family="Yellowtail" font-size="22">Ab \u0416 \u4f60 \u0627\u0628</text>'
+    '<text x="4" y="70" font-family="Noto Mono" font-weight="bold" font-size="22">\u03a9 \u0915 \u4f60 w</text></svg>',
+]
+
+
+def cli_fresh_oracle(ctx, rounds):
+    import shutil
+    import subprocess
+    from props import c20
+    rb, ub, clog = c20.build_cli(ctx)
+    if rb is None:
+        ctx.violation("the resvg/usvg binaries do not build from the current tree (fresh-process CLI oracle cannot run)",
+                      dict(build_log=clog[-2000:]), found_input=False)
+        return
+    wd = os.path.join(ctx.workdir, 'cli-%d' % ctx.seed)
+    shutil.rmtree(wd, ignore_errors=True)
+    os.makedirs(wd)
+    try:
+        fdir = os.path.join(vlib.REPO, 'crates/resvg/tests/fonts')
+        fonts = sorted(f for f in os.listdir(fdir) if f.endswith(('.ttf', '.otf')))
+        groups = {'d1': [], 'd2': [], 'd3': []}
+        singles = []
+        for i, f in enumerate(fonts):
+            if f.startswith(('Yellowtail', 'SedgwickAve')):
+                singles.append(f)
+            else:
+                groups['d%d' % (i % 3 + 1)].append(f)
+        for d, fs in groups.items():
+            os.makedirs(os.path.join(wd, d))
+            for f in fs:
+                shutil.copy(os.path.join(fdir, f), os.path.join(wd, d, f))
+        for f in singles:
+            shutil.copy(os.path.join(fdir, f), os.path.join(wd, f))
+        fargs = ['--skip-system-fonts']
+        for d in ('d1', 'd2', 'd3'):
+            fargs += ['--use-fonts-dir', os.path.join(wd, d)]
+        for f in singles:
+            fargs += ['--use-font-file', os.path.join(wd, f)]
+        # the same path twice is legal and must not matter
+        fargs += ['--use-fonts-dir', os.path.join(wd, 'd2')]
+        ncmp = 0
+        for k, tmpl in enumerate(CLI_TEXT_DOCS):
+            doc = tmpl % NS
+            inp = os.path.join(wd, 't%d.svg' % k)
+            with open(inp, 'w', encoding='utf-8') as f:
+                f.write(doc)
+            for tool, binp, ext in (('resvg', rb, 'png'), ('usvg', ub, 'svg')):
+                outs = []
+                for r in range(rounds):
+                    outp = os.path.join(wd, 't%d-%d.%s' % (k, r, ext))
+                    p = subprocess.run([binp] + fargs + [inp, outp], stdout=subprocess.PIPE, stderr=subprocess.PIPE, timeout=300, cwd=wd)
+                    data = open(outp, 'rb').read() if os.path.exists(outp) else b''
+                    outs.append((p.returncode, data))
+                    ncmp += 1
+                ctx.note_case("cli-fresh/%s/%d/%s" % (tool, k, vlib.hashlib.sha256(outs[0][1]).hexdigest()[:16]),
+                              nontrivial=(outs[0][0] == 0 and len(outs[0][1]) > 200))
+                if outs[0][0] != 0 or not outs[0][1]:
+                    ctx.violation("%s failed on a text document with several font sources (exit %s)" % (tool, outs[0][0]),
+                                  dict(kind='cli-fresh', tool=tool, doc=doc, font_args=[a.replace(wd, '<wd>') for a in fargs]))
+                    continue
+                distinct = sorted(set(vlib.hashlib.sha256(d).hexdigest()[:16] + ':%d' % rc for rc, d in outs))
+                if len(distinct) > 1:
+                    ctx.violation("not reproducible across processes: %d runs of the %s binary on the same text document with the same "
+                                  "--use-fonts-dir/--use-font-file arguments give %d different outputs" % (rounds, tool, len(distinct)),
+                                  dict(kind='cli-fresh', tool=tool, doc=doc, font_args=[a.replace(wd, '<wd>') for a in fargs],
+                                       outputs=distinct, rounds=rounds))
+        ctx.cov['e2e_cli_fresh_process'] = dict(documents=len(CLI_TEXT_DOCS), tools=2, rounds=rounds, runs=ncmp)
+    finally:
+        shutil.rmtree(wd, ignore_errors=True)
+
+
 def pick_items(ctx, quick):
     rng = ctx.rng
     files = vlib.corpus_files()
@@ -220,14 +342,20 @@ def offending_sites(ctx):
             "(filter (fun s => negb (mention_ok s)) c06_hash_mentions)).\n"
             "Eval vm_compute in (map (fun h => (hh_file h, hh_fn h, hh_type h, hh_method h, hh_line h)) "
             "(filter (fun h => negb (hasher_ok h)) c06_hasher_sites)).\n"
+            "Eval vm_compute in (map (fun h => (hs_file h, hs_fn h, hs_name h, hs_method h, hs_line h)) "
+            "(filter (fun h => negb (hsite_ok h && hsite_resolved h)) c06_bin_hash_sites) ++ "
+            "map (fun s => (ss_file s, ss_fn s, ss_kind s, ss_text s, ss_line s)) "
+            "(filter (fun s => negb (bin_ssite_ok s)) c06_bin_shared_sites) ++ "
+            "map (fun s => (ss_file s, ss_fn s, ss_kind s, ss_text s, ss_line s)) "
+            "(filter (fun s => negb (mention_ok s)) c06_bin_hash_mentions)).\n"
             "Eval vm_compute in (string_hash_fixed c06_hasher_sites, forbid_ok c06_forbid_unsafe, cache_per_call_ok, gen_fns_ok,\n"
-            "  c06_cache_new_sites, c06_cache_escapes, filter (fun g => negb (gf_shape_ok g)) c06_gen_id_fns).\n")
+            "  c06_cache_new_sites, c06_cache_escapes, filter (fun g => negb (gf_shape_ok g)) c06_gen_id_fns, c06_scanner_selftest).\n")
     rc, out = ctx.coq_eval('c06_offenders', "From Coq Require Import String List Bool ZArith.\nImport ListNotations.\nLocal Open Scope string_scope.\nLocal Open Scope Z_scope.\n" + body, SITE_IMPORTS)
     if rc != 0:
         return "ledger could not be evaluated: " + out[-400:]
     out = re.sub(r"\s+", " ", out)
     parts = [p.strip() for p in out.split(' = ')[1:]]
-    labels = ['hash sites', 'constructors', 'shared state', 'type mentions', 'hashers', 'flags(string_hash_fixed, forbid_unsafe, cache_per_call, gen_fns_ok, Cache::new sites, escapes, bad gen fns)']
+    labels = ['hash sites', 'constructors', 'shared state', 'type mentions', 'hashers', 'command-line front ends (main.rs)', 'flags(string_hash_fixed, forbid_unsafe, cache_per_call, gen_fns_ok, Cache::new sites, escapes, bad gen fns)']
     res = []
     for lab, p in zip(labels, parts):
         p = re.sub(r":\s*list .*$|:\s*\(?bool.*$", "", p).strip()
@@ -348,6 +476,42 @@ def run(ctx):
                       dict(kind='fresh-process', opts=items[i][0], doc=items[i][1], first=base[i], fresh=got,
                            cmd="rvh c06-digest  (stdin: 0<TAB>opts<TAB>doc), run twice"))
     ctx.cov['e2e_fresh_process'] = dict(items=len(live), rounds=nfresh, comparisons=n_fresh_cmp)
+
+    # (c') history with look-alike raster images: pairs rendered one after the other in ONE process (both orders)
+    pairs = image_pair_docs(ctx.rng, 6 if not deep else 24)
+    hitems = []
+    for a, b in pairs:
+        hitems += [('-', a), ('-', b)]
+    hitems = hitems + [hitems[i ^ 1] for i in range(len(hitems))]      # ... and B before A
+    hbase, hmism, hstats, hfail = run_e2e(ctx, binp, hitems, [2], 2, seed, 1)
+    if hfail:
+        ctx.violation("e2e-C06 history pass (raster image pairs) died", dict(failures=hfail[:2]), found_input=False)
+    for m in hmism[:3]:
+        it = hitems[int(m.get('idx', 0))]
+        ctx.violation("not reproducible in one process (raster image pairs): %s differs in phase %s" % (m.get('what'), m.get('phase')),
+                      dict(kind='in-process', opts='-', doc=it[1], phase=m.get('phase'), what=m.get('what'), threads=[2], seed=seed))
+    hfresh = fresh_digests(ctx, binp, hitems, list(range(len(hitems))))
+    nh = 0
+    for i in range(len(hitems)):
+        nh += 1
+        ctx.note_case("e2e/imgpair/%s" % (hbase[i] or {}).get('p', ''), nontrivial=bool(hbase[i]) and not str((hbase[i] or {}).get('s', '')).startswith(('error', 'panic')))
+        if hbase[i] is not None and hfresh[i] != hbase[i]:
+            j = i ^ 1
+            ctx.violation("history dependence: a document with a raster image rendered after a look-alike image (same size, byte length and leading "
+                          "256 bytes, different pixels) in one process differs from its rendering in a fresh process (%s vs %s)"
+                          % (str(hbase[i])[:70], str(hfresh[i])[:70]),
+                          dict(kind='history-pair', opts='-', doc=hitems[i][1], rendered_before=hitems[j][1], in_process=hbase[i], fresh=hfresh[i],
+                               cmd="rvh c06-e2e 1 2 2 with stdin lines 0<TAB>-<TAB><rendered_before> and 1<TAB>-<TAB><doc>; compare with rvh c06-digest of <doc>"))
+            break
+    # distinct pictures must give distinct pixels (the pair really differs)
+    for i in range(0, 2 * len(pairs), 2):
+        if hfresh[i].get('p') == hfresh[i + 1].get('p'):
+            ctx.violation("generator error: the two images of a pair render identically", dict(doc=hitems[i][1]), found_input=False)
+            break
+    ctx.cov['e2e_history_image_pairs'] = dict(pairs=len(pairs), comparisons=nh)
+
+    # (d') the shipped binaries in fresh processes with several font sources
+    cli_fresh_oracle(ctx, 6 if not deep else 10)
     kinds = dict(ok=0, error=0, panic=0)
     for i in live:
         s = base[i].get('s', '')
@@ -356,7 +520,7 @@ def run(ctx):
         src = 'gen' if not items[i][1].startswith('@') else ('witness' if '/witness/' in items[i][1] else 'corpus')
         ctx.note_case("e2e/%s/%s" % (src, base[i].get('s', '') + base[i].get('p', '')), nontrivial=(k == 'ok'))
     ctx.cov['e2e_outcomes'] = kinds
-    ctx.cov['e2e_cases'] = ncomp + n_fresh_cmp
+    ctx.cov['e2e_cases'] = ncomp + n_fresh_cmp + nh + ctx.cov.get('e2e_cli_fresh_process', {}).get('runs', 0)
     ctx.add_sample(dict(op='e2e-C06', doc=doc_of(items[0]), digest=base[0]))
     ctx.add_sample(dict(op='e2e-C06', doc=items[-1][1][:600], digest=base[-1]))
     ctx.cov['rule'] = ("ledger: every method call / for-in / whole-value use of a HashMap/HashSet typed binding or field, every shared-state "
@@ -364,7 +528,9 @@ def run(ctx):
                        "(quick: 2 per feature directory + extra text/filters/images/masking; thorough: all 1695), /verif/corpus/witness, generated "
                        "documents (many ids incl. clashes with generated ids, all four caches, nested references, filter result names, text); for each: "
                        "3 repeated parses+renders, reversed and permuted processing order, N threads (half render the shared Tree, half re-parse with the "
-                       "shared Arc<fontdb>), fresh processes.  Non-trivial = the document parses; distinct by output digest.")
+                       "shared Arc<fontdb>), fresh processes; pairs of documents with look-alike raster images (equal size / byte length / first 256 bytes) in both "
+                       "orders in one process vs fresh processes; the real resvg and usvg binaries x 3 text documents with font fallback x 3 --use-fonts-dir + "
+                       "2 --use-font-file (+ one duplicate) x 6 fresh processes, byte equality.  Non-trivial = the document parses; distinct by output digest.")
 
     # ------------------------------------------------------------------ verdict on proofs / ties (DESIGN 1.5)
     if not proof_ok:
@@ -394,6 +560,24 @@ def replay(ctx, path):
     if binp is None:
         print("harness does not build")
         return 1
+    if rp.get('kind') == 'cli-fresh':
+        print("re-running the fresh-process oracle of the real binaries (documents and font arguments are fixed in c06.py)")
+        print(json.dumps(rp, indent=1, ensure_ascii=False)[:3000])
+        n0 = len(ctx.violations)
+        cli_fresh_oracle(ctx, 10)
+        for v in ctx.violations[n0:]:
+            print("REPRODUCED: " + v[0])
+        return 1 if len(ctx.violations) > n0 else 0
+    if rp.get('kind') == 'history-pair':
+        a, b = rp['rendered_before'], rp['doc']
+        rc, out = ctx.rvh(binp, ['c06-e2e', '1', '2', '2'], inp="0\t-\t%s\n1\t-\t%s\n" % (a, b))
+        inproc = [l for l in out.splitlines() if l.startswith('1\t')]
+        rc, fresh = ctx.rvh(binp, ['c06-digest'], inp="1\t-\t%s\n" % b)
+        print("document rendered AFTER its look-alike in one process: %s" % (inproc[0] if inproc else out[-300:]))
+        print("the same document in a fresh process:                  %s" % fresh.strip())
+        bad = not inproc or inproc[0].strip() != fresh.strip()
+        print("REPRODUCED: outputs differ" if bad else "not reproduced")
+        return 1 if bad else 0
     item = (rp.get('opts', '-'), rp['doc'])
     print("document: %s" % rp['doc'][:2000])
     outs = []
